@@ -3,7 +3,7 @@ CONSTANTS
   NW = 2
   Family = "collect-quick"
   PeerCounts = {1}
-  MaxChanges = 2
+  MaxChanges = 1
   Faithful = FALSE
   ShareIdentical = TRUE
   CachedDecide = TRUE
